@@ -55,6 +55,7 @@ type FuncContract struct {
 	Ghost      []string
 	Appends    []*AppendClause
 	AllowGlobals bool    // frame: package-level state (the atomic id counter) may change
+	ModReach   bool      // frame: everything reachable from the receiver may change (decoders fill owned buffers)
 	Auto       bool      // synthesised for an implementer of a contracted interface
 	RefinePre  []*Clause // interface preconditions that must imply this contract's own preconditions
 	Inherited  []string  // interface methods whose clauses were inherited
@@ -481,7 +482,8 @@ func (db *ContractDB) parseFile(pkg, file string) {
 			}
 			return &Clause{Text: text, Expr: e, Props: cprops, Line: ln}
 		}
-		isDecoder := kw == "decoder"
+		isDecoder := kw == "decoder" || kw == "elemdecoder"
+		isElem := kw == "elemdecoder"
 		if isDecoder {
 			kw = "func"
 		}
@@ -494,9 +496,18 @@ func (db *ContractDB) parseFile(pkg, file string) {
 					fc.Modifies = append(fc.Modifies, c)
 				}
 				fc.Own = append(fc.Own, "noalias")
+				fc.ModReach = true
 				if len(fc.Params) > 1 {
 					// memory proportional to the input: no single allocation exceeds max(4096, len(input))
 					fc.AllocBound = mkClause("max(4096, len(" + fc.Params[1] + "))")
+				}
+				if isElem && len(fc.Params) > 1 && len(fc.Results) == 1 {
+					// element decoder: on success the value can be sized, occupies at least one byte and lies
+					// within the input (what list-decoding callers need for progress and bounds)
+					r, d, e := fc.Params[0], fc.Params[1], fc.Results[0]
+					if c := mkClause(e + " == nil ==> wfl(" + r + ") && 1 <= size(" + r + ") && size(" + r + ") <= len(" + d + ") && size(" + r + ") <= 65535"); c != nil {
+						fc.Ensures = append(fc.Ensures, c)
+					}
 				}
 			}
 			curLoop = nil
